@@ -7,13 +7,15 @@ import traceback
 
 
 def registry():
-    from .props import c03, c06, history, static
+    from .props import c03, c06, graph, history, static
 
     reg = {}
     for p in ("C01", "C02", "C07"):
         reg[p] = static.run
     reg["C06"] = c06.run
     reg["C03"] = c03.run
+    reg["C16"] = graph.run
+    reg["C08"] = graph.run
     for p in ("C04", "C05", "C20"):
         reg[p] = history.run
     return reg
